@@ -787,6 +787,38 @@ func (c *SchedCase) CoqCase(obs *SchedObs) (string, bool) {
 	return fmt.Sprintf("CRun %s %s %s [%s] %s", c.GraphTerm(ix), natList(hints), evs, strings.Join(tail, "; "), lib.Bool(obs.Exit != 0)), ok
 }
 
+// subrepoPackageParsed says whether the package carrying the subrepo statements is in the dependency closure of the requested
+// targets: plz parses nothing else, so only then is checkSubrepo's decision observable.
+func (c *SchedCase) subrepoPackageParsed() bool {
+	want := map[string]bool{}
+	for p, k := range c.Broken {
+		if strings.HasPrefix(k, "subrepo-") {
+			want[p] = true
+		}
+	}
+	for p := range c.SubrepoOK {
+		want[p] = true
+	}
+	seen := map[string]bool{}
+	todo := append([]string{}, c.Requested...)
+	for len(todo) > 0 {
+		l := todo[0]
+		todo = todo[1:]
+		if seen[l] {
+			continue
+		}
+		seen[l] = true
+		p, _ := SplitLabel(l)
+		if want[p] {
+			return true
+		}
+		if t := c.target(l); t != nil {
+			todo = append(todo, t.Deps...)
+		}
+	}
+	return false
+}
+
 // SubrepoCase is the Model/Sched.v case for checkSubrepo's decision in a case with subrepo statements ("" if there are
 // none): CSub registered definer_defines label definer dependent observed. A package label is (subrepo, package): subrepo 0 =
 // the host repository, 1 = the subrepo; package 0 = a root package, 1 = the package with the statements, 2 = srdef_<p>.
@@ -1239,7 +1271,7 @@ func RunSchedProperty(c *lib.Ctx, prop string) {
 			c.Case(term, js, key, started >= 2 || sc.Kind != "none")
 		}
 		// checkSubrepo's decision (defined before use / used before defined / defined elsewhere / nowhere), seen through plz's error message
-		if sub := sc.SubrepoCase(o); sub != "" && !o.TimedOut {
+		if sub := sc.SubrepoCase(o); sub != "" && !o.TimedOut && sc.subrepoPackageParsed() {
 			c.Case(sub, js, "sub:"+key, true)
 		}
 	}
